@@ -64,8 +64,10 @@ class DirectoryMatcher:
         """
         if dir_path == "/":
             return self._check_root_match(dir_path, path_str)
-        if path_str.startswith(dir_path):
-            depth = len(dir_path.split("/"))
+        # Component-wise containment: rule "src" covers "src/a.py" but not "srcx/a.py"
+        directory = dir_path.rstrip("/")
+        if path_str.startswith(directory + "/"):
+            depth = len(directory.split("/"))
             return True, depth
         return False, -1
 
